@@ -101,6 +101,57 @@ def fast2sum_operands(s1, c1):
     return None
 
 
+def recoveries(terms):
+    """[(t, p, q, exact nodes)]: sub-terms that recover the rounding error of a float addition t = p + q (or
+    subtraction t = p - q) in a Fast2Sum form - (t - p) - q, (p - t) + q, resp. (t - p) + q - which is exact,
+    every intermediate included, only for |p| >= |q| (Dekker)"""
+    out = []
+
+    def visit(x):
+        if x[0] != 'op' or len(x[2]) != 2:
+            return
+        a, b = x[2]
+        if a[0] == 'op' and a[1] == 'sub' and len(a[2]) == 2:
+            u, v = a[2]
+            # (t - p) -/+ q
+            if u[0] == 'op' and len(u[2]) == 2:
+                if x[1] == 'sub' and u[1] == 'add' and (u[2] == (v, b) or u[2] == (b, v)):
+                    out.append((u, v, b, (a, x)))
+                if x[1] == 'add' and u[1] == 'sub' and u[2] == (v, b):
+                    out.append((u, v, b, (a, x)))
+            # (p - t) + q
+            if x[1] == 'add' and v[0] == 'op' and v[1] == 'add' and len(v[2]) == 2 and (v[2] == (u, b) or v[2] == (b, u)):
+                out.append((v, u, b, (a, x)))
+    for t_ in terms:
+        T.walk(t_, visit)
+    return out
+
+
+def recovery_problems(nf, sum_term, comp_terms, guard, zero_subst=None):
+    """Problems with the error recoveries of one merged register (new sum, new compensation(s)) under a path condition:
+    every recovery of a float addition t = p + q needs |p| >= |q| - by the path condition, or trivially because q is a
+    pure rounding residue (real value 0) and p is not.  -> (recoveries found, [problem])"""
+    zero_subst = zero_subst or {}
+
+    def comp_sized(t):
+        try:
+            return nf.is_zero(nf.of_term(T.subst(t, zero_subst)))
+        except NotReal:
+            return False
+    recs = recoveries([sum_term] + list(comp_terms))
+    out = []
+    gset = set((a_, pol) for a_, pol in guard)
+    for t_, p_, q_, _x in recs:
+        if comp_sized(q_) and not comp_sized(p_):
+            continue
+        ps_, qs_ = simp0(T.subst(p_, zero_subst)), simp0(T.subst(q_, zero_subst))
+        pa, qa = T.op('abs', ps_), T.op('abs', qs_)
+        oks = {(T.op('lt', qa, pa), True), (T.op('le', qa, pa), True), (T.op('lt', pa, qa), False), (T.op('le', pa, qa), False)}
+        if not (oks & gset):
+            out.append('nothing establishes |%s| >= |%s| where the error of their sum is recovered as (t - p) - q, which is exact only then (Dekker): merging a register into a smaller one loses the rounding error of the merge' % (T.show(ps_)[:30], T.show(qs_)[:30]))
+    return recs, out
+
+
 def kernel_rule(nf, s1, c1, s=S, c=C, x=X):
     """-> (ok, detail) for one step (s, c, x) -> (s1, c1)."""
     if s1[0] != 'op' or s1[1] not in ('add', 'sub'):
@@ -202,30 +253,6 @@ def run_cfg(chk, facts, cfg):
             except NotReal:
                 return False
 
-        def recoveries(terms):
-            """[(t, p, q, exact nodes)]: sub-terms that recover the rounding error of a float addition t = p + q (or
-            subtraction t = p - q) in a Fast2Sum form - (t - p) - q, (p - t) + q, resp. (t - p) + q - which is exact,
-            every intermediate included, only for |p| >= |q| (Dekker)"""
-            out = []
-
-            def visit(x):
-                if x[0] != 'op' or len(x[2]) != 2:
-                    return
-                a, b = x[2]
-                if a[0] == 'op' and a[1] == 'sub' and len(a[2]) == 2:
-                    u, v = a[2]
-                    # (t - p) -/+ q
-                    if u[0] == 'op' and len(u[2]) == 2:
-                        if x[1] == 'sub' and u[1] == 'add' and (u[2] == (v, b) or u[2] == (b, v)):
-                            out.append((u, v, b, (a, x)))
-                        if x[1] == 'add' and u[1] == 'sub' and u[2] == (v, b):
-                            out.append((u, v, b, (a, x)))
-                    # (p - t) + q
-                    if x[1] == 'add' and v[0] == 'op' and v[1] == 'add' and len(v[2]) == 2 and (v[2] == (u, b) or v[2] == (b, u)):
-                        out.append((v, u, b, (a, x)))
-            for t_ in terms:
-                T.walk(t_, visit)
-            return out
         try:
             ps = summ(add_s, ['self', 'rhs'], [by_ref(sm.kahan_value(S, [C])), sm.kahan_value(BS, [BC])])
             chk.saw(facts, add_s, paths=len(ps))
